@@ -66,4 +66,17 @@ def pinnedReaders : List String :=
 theorem readers_pin_and_unpin :
     ∀ f ∈ pinnedReaders, (f, true, true) ∈ Gen.Pins.pins := by decide +kernel
 
+/-- every call of `rootAddRef` in the package is one of the twelve reviewed sites: nine take the
+    pin into a local that the very next statement releases by `defer` (whatever path the function
+    leaves by), three hand it to another owner — the new handle of `SetCollection`, the handles of a
+    `Snapshot`, and `Flush`'s map of pins (released by its deferred loop).  A new pin site, or one of
+    the nine losing its `defer` (seeded change C18b), refutes this. -/
+theorem every_pin_site_is_reviewed :
+    Gen.Pins.pinSites =
+      [("Collection.Delete", "paired"), ("Collection.GetItem", "paired"), ("Collection.GetTotals", "paired"),
+       ("Collection.MarshalJSON", "paired"), ("Collection.SetItem", "paired"),
+       ("Collection.VisitItemsAscendEx", "paired"), ("Collection.VisitItemsDescendEx", "paired"),
+       ("Collection.Write", "paired"), ("Store.Flush", "kept"), ("Store.SetCollection", "kept"),
+       ("Store.Snapshot", "kept"), ("Store.walk", "paired")] := by decide
+
 end Gkv.Props.Locks
